@@ -45,7 +45,7 @@ CHECKS['C16'] = dict(
 
 CHECKS['C09'] = dict(
     category='other',
-    technique='call-graph / dominance / derived-from rules over resolved MIR of 3 (quick) or 10 (thorough) target+feature configurations; canonical-MIR diff across cargo features',
+    technique='call-graph / dominance / derived-from rules over resolved MIR of 3 (quick) or 10 (thorough) target+feature configurations; canonical-MIR diff across cargo features; bit-provenance dataflow (BDD-canonical Boolean functions per bit) for the lane laws of the sibling Vector/MoveMask impls',
     text="Decides the wiring between backends, not their semantics: DISP (each public byte-search entry point reaches, "
          "through every cfg arm and every ifunc member, exactly the searcher kind and method its name implies, with "
          "needles/start/end forwarded), AVAIL-IS/AVAIL-CALL/CAP/IFUNC-AVAIL (a #[target_feature] routine is only "
@@ -53,6 +53,8 @@ CHECKS['C09'] = dict(
          "is_available() cannot be true without the features), FEAT-DIFF (no cargo-feature-dependent code on any "
          "search path: canonical MIR equal across std/alloc/core up to a reasoned allow-list). Configurations that "
          "a host test run never compiles (NEON, simd128, no-SSE2, big-endian, 32-bit) are analysed like the host. "
+         "LANE-LAW (E6): the sibling implementations of the Vector / MoveMask traits (SSE2, AVX2, NEON, simd128) and the portable "
+         "SWAR primitives all satisfy the same lane laws, decided from the MIR of src/vector.rs by a bit-provenance dataflow. "
          "Agreement of answers then follows from each backend meeting the specification (C01/C02/C07).",
     note=TB + "per-backend semantics are C01/C02/C07; memmem agreement additionally rests on C03; vendor semantics of is_x86_feature_detected!.",
     design_ref='5/C09')
@@ -104,11 +106,11 @@ CHECKS['C05'] = dict(
          "arithmetic without a read is reported as ARITH notes only.",
     design_ref='5/C05')
 
-E3TB = 'the E2/E3 interpreter (lin.py, loops.py, interp.py, models.py, e3.py, specs.py); the VECTOR AXIOMS: lane-wise meaning of the Vector/MoveMask trait methods (cmpeq, or, and, movemask, has_non_zero, first/last_offset, count_ones) and of has_zero_byte are assumed -- the bit-level impls in vector.rs are not decided'
-E3TECH = 'abstract interpretation of monomorphic MIR with ghost scan-coverage state (E2+E3): symbolic haystack and needles, exact linear-integer store, Houdini loop invariants; post-conditions are entailment obligations at every return; 2 (quick) / 10 (thorough) target configurations, release semantics'
+E3TB = 'the E2/E3 interpreter (lin.py, loops.py, interp.py, models.py, e3.py, specs.py); the VECTOR AXIOMS: lane-wise meaning of the Vector/MoveMask trait methods (cmpeq, or, and, movemask, has_non_zero, first/last_offset, count_ones) and of has_zero_byte are used as axioms by E2/E3 and are themselves DECIDED per backend by the LANE-LAW obligations (E6, mcai/lanes.py: bit-provenance dataflow over the MIR of src/vector.rs, every bit a canonical Boolean function of the input lane predicates); trusted there: the transfer functions of the vendor intrinsics; on the big-endian aarch64 configuration the NEON laws are reported undecided'
+E3TECH = 'abstract interpretation of monomorphic MIR with ghost scan-coverage state (E2+E3): symbolic haystack and needles, exact linear-integer store, Houdini loop invariants; post-conditions are entailment obligations at every return; 3 (quick: x86-64, aarch64, i686 without vector backend) / 10 (thorough) target configurations, release semantics; plus the E6 lane-law dataflow for the Vector/MoveMask/SWAR primitives'
 CHECKS['C01'] = dict(
     category='proof', technique=E3TECH,
-    text="Decides the property relative to the vector axioms: for memchr/memchr2/memchr3 and find/find_raw of every "
+    text="Decides the property (the vector axioms are themselves decided per backend, LANE-LAW): for memchr/memchr2/memchr3 and find/find_raw of every "
          "One/Two/Three of every backend (SWAR, SSE2, AVX2, NEON, simd128; through every member of the ifunc sets) the "
          "interpreter proves at every return: None => every byte of [start,end) was examined for every needle "
          "(ghost prefix hi[n] >= end), Some(p) => start <= p < end, p is a set lane of a non-zero equality mask over one "
@@ -155,7 +157,8 @@ CHECKS['C14'] = dict(
 CHECKS['C18'] = dict(
     category='proof', technique='abstract interpretation of monomorphic MIR (E2) with a byte-equality coverage ghost (mcai/eqg.py): symbolic operands, exact linear-integer store, Houdini loop invariants over the ghost interval; EQ-TRUE / EQ-FALSE entailment obligations at every return; release semantics, 2 (quick) / 10 (thorough) configurations',
     text="Decides the property: for is_equal_raw (under its documented contract), is_equal, is_prefix and is_suffix with symbolic "
-         "operands of every length, address and content, `true` is returned only when the length condition of the specification "
+         "operands of every length, address and content -- analysed once with the operands in distinct allocations and once as "
+         "arbitrary, possibly overlapping views into one allocation --, `true` is returned only when the length condition of the specification "
          "holds and the interval of bytes compared equal (built only by successful 4-/2-/1-byte comparisons at one displacement) "
          "covers the whole specified range -- so no byte of the tail is skipped and the right sub-slice is compared -- and `false` "
          "only when a length condition fails or a failed comparison lies inside the range; the result is decided on every path, "
